@@ -175,36 +175,32 @@ pub unsafe fn simd_prefix_search_avx2(
         let batch = _mm256_loadu_si256(prefixes.as_ptr() as *const __m256i);
         let batch_unsigned = _mm256_xor_si256(batch, sign_bit);
 
+        // Slots whose prefix is strictly below / strictly above the target prefix. Only
+        // strict comparisons may narrow the range: slots with an equal prefix have to be
+        // left to the full-key comparison that follows.
         let cmp_lt = _mm256_cmpgt_epi32(target_unsigned, batch_unsigned);
         let lt_mask = _mm256_movemask_epi8(cmp_lt) as u32;
 
-        let cmp_eq = _mm256_cmpeq_epi32(_mm256_set1_epi32(target_prefix as i32), batch);
-        let eq_mask = _mm256_movemask_epi8(cmp_eq) as u32;
+        let cmp_gt = _mm256_cmpgt_epi32(batch_unsigned, target_unsigned);
+        let gt_mask = _mm256_movemask_epi8(cmp_gt) as u32;
 
         if lt_mask == 0xFFFFFFFF {
             left = batch_start + AVX2_BATCH_SIZE;
             continue;
-        } else if lt_mask == 0 {
+        } else if gt_mask == 0xFFFFFFFF {
             right = batch_start;
             continue;
         }
 
-        let first_ge_idx = (lt_mask.trailing_ones() / 4) as usize;
-
-        if first_ge_idx > 0 {
-            left = batch_start + first_ge_idx - 1;
+        // The slot array is sorted, so the strictly-smaller slots form a prefix of the
+        // batch and the strictly-greater slots form a suffix of it.
+        let lt_count = (lt_mask.trailing_ones() / 4) as usize;
+        if lt_count > 0 {
+            left = batch_start + lt_count;
         }
-        right = batch_start + first_ge_idx.min(7) + 1;
-
-        if eq_mask != 0 {
-            let first_eq_idx = (eq_mask.trailing_zeros() / 4) as usize;
-            let last_eq_idx = if eq_mask.leading_zeros() == 0 {
-                7
-            } else {
-                (31 - eq_mask.leading_zeros()) as usize / 4
-            };
-            left = left.min(batch_start + first_eq_idx);
-            right = right.max(batch_start + last_eq_idx + 1);
+        if gt_mask != 0 {
+            let first_gt_idx = (gt_mask.trailing_zeros() / 4) as usize;
+            right = right.min(batch_start + first_gt_idx);
         }
 
         break;
